@@ -128,6 +128,7 @@ func (s *Syncer) SendOnce(ctx context.Context, env *lmdb.Env) (txnID header.TxnI
 		return 0, err
 	}
 	tDumped := time.Now()
+	verifNoteTxn(s, txnID)
 	verifYield(s, "send.afterTxn")
 
 	// If no actual changes were made, LMDB will not record the transaction
